@@ -110,9 +110,29 @@ for _pid in ("C07", "C08"):
 PROPS["C08"]["assumptions"] = PROPS["C08"]["assumptions"] + [
     "documented strictness is recognised by re-running the model with the predictor check off and single-symbol codes of any length accepted: a rejection that disappears under that setting is not a C08 violation"]
 
+PROPS["C18"] = {
+    "extract": ["vp8l_tables"],
+    "rule": "cases = every length vector over k = 1..5 symbols (6 in thorough) with lengths 0..5 (exhaustive); all 4096 12-bit strings for four fixed codes; random vectors over the real alphabets {19,40,256,280,282,344,1304,2328} with lengths 1..15 that are complete (random full binary trees), under-subscribed (one code lengthened) or over-subscribed (one extra leaf), with explicit zero lengths sprinkled in; each decoded against 8-64 random bytes through BitBufReader::read_huffman. non-trivial = at least two used symbols or a decoded accepted code (everything except tag used0)",
+    "trivial_if_any": ["used0"],
+    "shards": {"quick": 8, "thorough": 16},
+    "exhaustive": {"quick": True, "thorough": True},
+    "explanation": "exhaustive = all length vectors over up to 5 (quick) / 6 (thorough) symbols with lengths 0..5",
+    "trusted_base": [
+        "lean/MediaSan/Vp8l/Huffman.lean: model of CanonicalHuffmanTree::{symbols, from_symbols} and of bitstream-io's WipHuffmanTree::{add, into_read_tree} / read_huffman",
+        "MediaSan/Spec/CanonicalCode.lean: Kraft sum, RFC 1951/9649 next_code assignment and prefix-match decoding (independent oracle)",
+        "sort_unstable_by_key on distinct (length, symbol) keys is deterministic",
+    ],
+    "assumptions": COMMON_ASSUME + ["symbols in a length vector are distinct (the callers build them from a running index; the simple-code path dedups)"],
+}
+
 NOT_APPLICABLE = {}
 
 MANIFEST_TEXT = {
+    "C18": {
+        "text": "Lean theorems about the model of the canonical-code builder and the bitstream-io trie (see Props/C18.lean): trie insertion/finalisation lemmas, the single-symbol zero-bit case, canonical (not stream) order. Correspondence through the public CanonicalHuffmanTree / BitBufReader API: the real code, the model and an independent specification (Kraft sum = 1 or single length-1 symbol; next_code assignment; prefix-match decoding) must agree on acceptance, longest_code_len and every decoded symbol, exhaustively over small vectors and on random complete / under- / over-subscribed vectors over the real alphabets.",
+        "note": "Partial: the general theorem 'build succeeds iff Kraft sum = 1 or single length-1 symbol' is stated in the Props file with the part proved so far; the equivalence is decided per generated case against the independent specification. Trusted: see evidence.",
+        "technique": "Lean 4 proof of trie/canonical-code lemmas + exhaustive small-vector three-way differential check (code, model, RFC specification)",
+    },
     "C07": {
         "text": "Lean theorems about the model of the canonical-code builder and the lossless header-phase validator (see the Props file: each violation class named in the property is a rejection lemma of the model; the code tables equal the specification's). The whole-stream claim 'accepted => the reference decodes the header phase' is evaluated on the real code against libwebp 1.3.1 (executed, not modelled) over specification-synthesised streams with each rule violated in turn, encoder output and its mutations; the model must agree with webpsan on every payload.",
         "note": "Partial by nature: relative to libwebp as an executed oracle. The check found defect F3 (simple prefix codes: stream-order assignment, a symbol named twice read as a 1-bit code, symbols outside the alphabet accepted), repaired in /repo. Trusted: see evidence.trusted_base.",
